@@ -1,6 +1,6 @@
 (* C12: when does the configuration lookup succeed; arithmetic of the generated leaves over exact
    rationals; totality corollaries; witnesses of the refuted full statements. *)
-From Coq Require Import List String Bool Arith PeanoNat Lia ZArith QArith Qabs Lqa.
+From Coq Require Import List String Bool Arith PeanoNat Lia ZArith QArith Qabs Qround Lqa.
 From Coq Require Import Floats.PrimFloat.
 From PAFCommon Require Import PyFloat PyNum.
 From PAFC01 Require Import ModelTree Sorting.
@@ -18,7 +18,7 @@ Section C.
   Notation node_ind' := (PAFC01.Proofs.node_ind' V).
 
   Definition is_pm (n : node) : bool :=
-    match n with NModel _ _ _ | NColl _ | NBin _ _ _ _ _ => true | _ => false end.
+    match n with NModel _ _ _ | NColl _ | NBin _ _ _ _ _ | NUn _ _ _ => true | _ => false end.
 
   Lemma has_prior_in (q : nat) (n : node) : In q (prior_ids V n) -> has_prior V q n = true.
   Proof.
@@ -42,7 +42,8 @@ Section C.
 
   Lemma class_of_some : forall n, wf V n -> is_pm n = true -> forall q, In q (prior_ids V n) -> class_of V q n <> None.
   Proof.
-    induction n as [p|v|ms _|o ln rn l r _ _|cls ctor attrs _|attrs IH] using node_ind'; intros W P q Hq; try discriminate P.
+    induction n as [p|v|ms _|o ln rn l r _ _|uo unm uc _|cls ctor attrs _|attrs IH] using node_ind'; intros W P q Hq; try discriminate P.
+    - cbn [class_of]. rewrite (has_prior_in q _ Hq). discriminate.
     - cbn [class_of]. rewrite (has_prior_in q _ Hq). discriminate.
     - cbn [class_of].
       match goal with |- match ?g with _ => _ end <> None => destruct g end; [discriminate|].
@@ -55,9 +56,10 @@ Section C.
       simpl in Ex. apply orb_false_iff in Ex. destruct Ex as [Ex1 Ex2].
       apply prior_ids_cons in Hq. destruct Hq as [Hq|Hq].
       + assert (Cc : class_of V q c <> None).
-        { destruct c as [p|v|ms|o ln rn l r|cls ctor at'|at']; try discriminate Wt.
+        { destruct c as [p|v|ms|o ln rn l r|uo unm uc|cls ctor at'|at']; try discriminate Wt.
           - simpl in Hq. destruct Hq as [<-|[]]. rewrite Nat.eqb_refl in Ex1. discriminate.
           - contradiction.
+          - apply (IHc Wc eq_refl q Hq).
           - apply (IHc Wc eq_refl q Hq).
           - apply (IHc Wc eq_refl q Hq).
           - apply (IHc Wc eq_refl q Hq). }
@@ -98,7 +100,7 @@ Section C.
     holder_class V (k :: x :: rest) (NModel cls ctor attrs) = hgo k (x :: rest) rest (Some cls) attrs.
   Proof. reflexivity. Qed.
   Lemma holder_coll k x rest attrs :
-    holder_class V (k :: x :: rest) (NColl attrs) = hgo k (x :: rest) rest (Some "ModelInstance") attrs.
+    holder_class V (k :: x :: rest) (NColl attrs) = hgo k (x :: rest) rest (coll_own V (NColl attrs)) attrs.
   Proof. reflexivity. Qed.
 
   Lemma walk_attrs_in (attrs : list (string * node)) (p : path) (q : nat) :
@@ -122,7 +124,7 @@ Section C.
     wf V c -> (is_pm c = true -> forall p q, In (p, q) (walk V c) -> holder_class V p c <> None) ->
     In (x :: rest, q) (walk V c) -> hdown (x :: rest) rest (Some o) c <> None.
   Proof.
-    intros W IH Hin. destruct c as [p0|v|ms|o' ln rn l r|cls ctor at'|at']; unfold hdown.
+    intros W IH Hin. destruct c as [p0|v|ms|o' ln rn l r|uo unm uc|cls ctor at'|at']; unfold hdown.
     - simpl in Hin. destruct Hin as [E|[]]. discriminate E.
     - contradiction.
     - destruct W as [Wl _]. rewrite walk_tuple in Hin. destruct (leaf_members_paths ms _ q Wl Hin) as [m E].
@@ -130,25 +132,26 @@ Section C.
     - apply (IH eq_refl _ q Hin).
     - apply (IH eq_refl _ q Hin).
     - apply (IH eq_refl _ q Hin).
+    - apply (IH eq_refl _ q Hin).
   Qed.
 
-  Lemma holder_class_some : forall n, wf V n -> is_pm n = true ->
+  Lemma holder_class_some : forall n, wf V n -> cls_ok V n -> is_pm n = true ->
     forall p q, In (p, q) (walk V n) -> holder_class V p n <> None.
   Proof.
-    induction n as [p0|v|ms _|o ln rn l r IHl IHr|cls ctor attrs IH|attrs IH] using node_ind'; intros W P p q Hin; try discriminate P.
-    - destruct W as [Wl [Wr Wn]]. cbn [walk] in Hin.
+    induction n as [p0|v|ms _|o ln rn l r IHl IHr|uo unm uc IHc|cls ctor attrs IH|attrs IH] using node_ind'; intros W C P p q Hin; try discriminate P.
+    - destruct W as [Wl [Wr Wn]]. destruct C as [Cl Cr]. cbn [walk] in Hin.
       assert (Cases : exists k p' c, p = k :: p' /\ In (p', q) (walk V c) /\ wf V c /\
                  (is_pm c = true -> forall p q, In (p, q) (walk V c) -> holder_class V p c <> None) /\
                  ((String.eqb k rn = true /\ c = r) \/ (String.eqb k rn = false /\ String.eqb k ln = true /\ c = l))).
       { destruct (String.eqb_spec ln rn) as [E|Ne].
         - unfold prefix_paths in Hin. apply in_map_iff in Hin. destruct Hin as [[p' q'] [E' Hw]]. simpl in E'. inversion E'; subst.
-          exists rn, p', r. split; [reflexivity|]. split; [exact Hw|]. split; [exact Wr|]. split; [exact (IHr Wr)|].
+          exists rn, p', r. split; [reflexivity|]. split; [exact Hw|]. split; [exact Wr|]. split; [exact (IHr Wr Cr)|].
           left. split; [apply String.eqb_refl|reflexivity].
         - apply in_app_or in Hin. destruct Hin as [Hin|Hin]; unfold prefix_paths in Hin; apply in_map_iff in Hin;
             destruct Hin as [[p' q'] [E' Hw]]; simpl in E'; inversion E'; subst.
-          + exists ln, p', l. split; [reflexivity|]. split; [exact Hw|]. split; [exact Wl|]. split; [exact (IHl Wl)|].
+          + exists ln, p', l. split; [reflexivity|]. split; [exact Hw|]. split; [exact Wl|]. split; [exact (IHl Wl Cl)|].
             right. split; [apply String.eqb_neq; exact Ne|]. split; [apply String.eqb_refl|reflexivity].
-          + exists rn, p', r. split; [reflexivity|]. split; [exact Hw|]. split; [exact Wr|]. split; [exact (IHr Wr)|].
+          + exists rn, p', r. split; [reflexivity|]. split; [exact Hw|]. split; [exact Wr|]. split; [exact (IHr Wr Cr)|].
             left. split; [apply String.eqb_refl|reflexivity]. }
       destruct Cases as [k [p' [c [-> [Hw [Wc [IHc Sel]]]]]]].
       destruct p' as [|x rest]; [simpl; discriminate|].
@@ -156,23 +159,30 @@ Section C.
       cbn [holder_class]. destruct Sel as [[E1 ->]|[E1 [E2 ->]]].
       + rewrite E1. exact D.
       + rewrite E1, E2. exact D.
+    - destruct C as [Cu Cc]. cbn [walk] in Hin.
+      unfold prefix_paths in Hin. apply in_map_iff in Hin. destruct Hin as [[p' q'] [E' Hw]]. simpl in E'. inversion E'; subst.
+      destruct p' as [|x rest].
+      + cbn [holder_class]. rewrite Cu. discriminate.
+      + assert (D := hdown_some uc x rest q "float" W (IHc W Cc) Hw).
+        cbn [holder_class]. rewrite Cu, String.eqb_refl. exact D.
     - rewrite walk_model in Hin. destruct (walk_attrs_in attrs p q Hin) as [k [c [p' [-> [Hc Hw]]]]].
       destruct p' as [|x rest]; [simpl; discriminate|]. rewrite holder_model.
-      apply wf_model in W. rewrite Forall_forall in W, IH.
+      apply wf_model in W. apply (cls_ok_attrs V) in C. rewrite Forall_forall in W, IH, C.
       apply (hgo_some k (x :: rest) rest (Some cls) attrs c Hc).
-      apply (hdown_some c x rest q cls (W _ Hc) (IH _ Hc (W _ Hc)) Hw).
+      apply (hdown_some c x rest q cls (W _ Hc) (IH _ Hc (W _ Hc) (C _ Hc)) Hw).
     - rewrite walk_coll in Hin. destruct (walk_attrs_in attrs p q Hin) as [k [c [p' [-> [Hc Hw]]]]].
-      destruct p' as [|x rest]; [simpl; discriminate|]. rewrite holder_coll.
-      apply wf_coll in W. rewrite Forall_forall in W, IH.
+      destruct p' as [|x rest]; [cbn [holder_class]; rewrite (coll_own_ok V (NColl attrs) C); discriminate|]. rewrite holder_coll.
+      rewrite (coll_own_ok V (NColl attrs) C).
+      apply wf_coll in W. apply (cls_ok_attrs V) in C. rewrite Forall_forall in W, IH, C.
       apply (hgo_some k (x :: rest) rest (Some "ModelInstance") attrs c Hc).
-      apply (hdown_some c x rest q "ModelInstance" (proj1 (W _ Hc)) (IH _ Hc (proj1 (W _ Hc))) Hw).
+      apply (hdown_some c x rest q "ModelInstance" (proj1 (W _ Hc)) (IH _ Hc (proj1 (W _ Hc)) (C _ Hc)) Hw).
   Qed.
 
   Lemma lookup_class_some (n : node) (q : nat) :
-    wf V n -> is_pm n = true -> In q (prior_ids V n) -> lookup_class V q n <> None.
+    wf V n -> cls_ok V n -> is_pm n = true -> In q (prior_ids V n) -> lookup_class V q n <> None.
   Proof.
-    intros W P Hq. unfold lookup_class. destruct own_place_class.
-    - destruct (last_path_some q n Hq) as [p [E Hin]]. rewrite E. apply (holder_class_some n W P p q Hin).
+    intros W C P Hq. unfold lookup_class. destruct own_place_class.
+    - destruct (last_path_some q n Hq) as [p [E Hin]]. rewrite E. apply (holder_class_some n W C P p q Hin).
     - apply (class_of_some n W P q Hq).
   Qed.
 End C.
@@ -193,6 +203,7 @@ Section T.
   Variable cfg : config V.
   Variable specs : list (nat * spec V).
   Variable bin : binop -> V -> V -> V.
+  Variable un : unop -> V -> V.
 
   Notation DM := (derive_mean V abs_width rel_width wm_rel wm_abs bad_limits neg_sigma ninf pinf half cfg specs).
   Notation PASS := (pass V abs_width rel_width wm_rel wm_abs uf_lo uf_hi pl_lo pl_hi gl_mean gl_sigma lu_lo lu_hi
@@ -228,15 +239,15 @@ Section T.
   Qed.
 
   Lemma derive_mean_total (a' r : option V) (nl : bool) (n : node) (q : nat) (m : V) :
-    wf V n -> is_pm V n = true -> names_ok n -> specs_cover n -> limits_good -> In q (prior_ids V n) ->
+    wf V n -> cls_ok V n -> is_pm V n = true -> names_ok n -> specs_cover n -> limits_good -> In q (prior_ids V n) ->
     (a' = None \/ r = None) ->
     (forall x, a' = Some x -> neg_sigma (abs_width x) = false) ->
     (forall x, a' = None -> r = Some x -> neg_sigma (rel_width x m) = false) ->
     (a' = None -> r = None -> modifiers_good m) ->
     exists s, DM a' r nl n q m = Ok s.
   Proof.
-    intros W P Nm Sc [Lg1 [Lg2 Lg3]] Hq AR Ha Hr Hd. unfold derive_mean.
-    destruct (lookup_class V q n) as [cls|] eqn:Ec; [|exfalso; apply (lookup_class_some V n q W P Hq Ec)].
+    intros W C P Nm Sc [Lg1 [Lg2 Lg3]] Hq AR Ha Hr Hd. unfold derive_mean.
+    destruct (lookup_class V q n) as [cls|] eqn:Ec; [|exfalso; apply (lookup_class_some V n q W C P Hq Ec)].
     destruct (last_path_some V q n Hq) as [p [Ep _]]. rewrite Ep.
     destruct (Nm q p Ep) as [name En]. rewrite En.
     destruct (lookup_nat q specs) as [old|] eqn:Eo; [|exfalso; apply (Sc q Hq Eo)].
@@ -269,7 +280,7 @@ Section T.
   Qed.
 
   Theorem total_means_conditions (a' r : option V) (nl : bool) (means : list V) (n : node) :
-    wf V n -> is_pm V n = true -> specs_cover n -> limits_good ->
+    wf V n -> cls_ok V n -> is_pm V n = true -> specs_cover n -> limits_good ->
     prior_count V n <= List.length means ->
     (a' = None \/ r = None) ->
     (forall x, a' = Some x -> neg_sigma (abs_width x) = false) ->
@@ -277,11 +288,11 @@ Section T.
     (forall i dm, a' = None -> r = None -> i < prior_count V n -> modifiers_good (nth i means dm)) ->
     exists n' sp, PASS (MMeans a' r nl means) n = Ok (n', sp).
   Proof.
-    intros W P Sc Lg L AR Ha Hr Hd. assert (Nm := names_ok_all n). apply total_means; [exact W|exact L|].
+    intros W C P Sc Lg L AR Ha Hr Hd. assert (Nm := names_ok_all n). apply total_means; [exact W|exact L|].
     intros i d dm Hi.
     assert (Hin : In (nth i (ordered_ids V n) d) (prior_ids V n)).
     { apply PAFC01.Proofs2.ordered_ids_in. apply nth_In. rewrite PAFC01.Proofs2.ordered_ids_length. exact Hi. }
-    apply (derive_mean_total a' r nl n _ (nth i means dm) W P Nm Sc Lg Hin AR Ha).
+    apply (derive_mean_total a' r nl n _ (nth i means dm) W C P Nm Sc Lg Hin AR Ha).
     - intros x Ea Er. apply (Hr x i dm Ea Er Hi).
     - intros Ea Er. apply (Hd i dm Ea Er Hi).
   Qed.
@@ -289,7 +300,7 @@ Section T.
   (* identical instances for identical arguments when ids are kept *)
   Theorem instance_kept (md : mode V) (n n' : node) (sp : list (nat * spec V)) (args : nat -> option V) :
     wf V n -> keeps_ids V md -> PASS md n = Ok (n', sp) ->
-    inst V bin args n' = inst V bin args n.
+    inst V bin un args n' = inst V bin un args n.
   Proof.
     intros W K E. unfold pass in E.
     destruct (mode_args V abs_width rel_width wm_rel wm_abs uf_lo uf_hi pl_lo pl_hi gl_mean gl_sigma lu_lo lu_hi
@@ -297,7 +308,7 @@ Section T.
     destruct (rebuild V (sigma_of V a) n) as [n1|] eqn:Er; [|discriminate]. inversion E; subst.
     destruct (mode_args_follows V abs_width rel_width wm_rel wm_abs uf_lo uf_hi pl_lo pl_hi gl_mean gl_sigma lu_lo lu_hi
                 lu_bad bad_limits neg_sigma ninf pinf half cfg specs md n a K Ea) as [f [ms [F _]]].
-    apply (rebuild_inst V bin (sigma_of V a) args args n W n' Er).
+    apply (rebuild_inst V bin un (sigma_of V a) args args n W n' Er).
     intros q _. rewrite (diag_sd V a q (follows_diag V ninf _ _ _ _ F)). reflexivity.
   Qed.
 End T.
@@ -382,11 +393,11 @@ Proof.
 Qed.
 
 Theorem total_absolute_Q (ninf pinf : Q) cfg specs (a : Q) (nl : bool) (means : list Q) (n : node Q) :
-  wf Q n -> is_pm Q n = true -> specs_cover Q specs n -> qlimits_good ninf pinf cfg specs ->
+  wf Q n -> cls_ok Q n -> is_pm Q n = true -> specs_cover Q specs n -> qlimits_good ninf pinf cfg specs ->
   (prior_count Q n <= List.length means)%nat -> 0 <= a ->
   exists n' sp, qpass ninf pinf cfg specs (MMeans (Some a) None nl means) n = Ok (n', sp).
 Proof.
-  intros W P Sc Lg L Ha. unfold qpass. apply total_means_conditions; auto.
+  intros W C P Sc Lg L Ha. unfold qpass. apply total_means_conditions; auto.
   - apply qlimits. exact Lg.
   - intros x E. inversion E; subst. apply abs_width_nonneg. exact Ha.
   - intros x i dm E. discriminate E.
@@ -394,11 +405,11 @@ Proof.
 Qed.
 
 Theorem total_relative_Q (ninf pinf : Q) cfg specs (r : Q) (nl : bool) (means : list Q) (n : node Q) :
-  wf Q n -> is_pm Q n = true -> specs_cover Q specs n -> qlimits_good ninf pinf cfg specs ->
+  wf Q n -> cls_ok Q n -> is_pm Q n = true -> specs_cover Q specs n -> qlimits_good ninf pinf cfg specs ->
   (prior_count Q n <= List.length means)%nat -> 0 <= r ->
   exists n' sp, qpass ninf pinf cfg specs (MMeans None (Some r) nl means) n = Ok (n', sp).
 Proof.
-  intros W P Sc Lg L Hr. unfold qpass. apply total_means_conditions; auto.
+  intros W C P Sc Lg L Hr. unfold qpass. apply total_means_conditions; auto.
   - apply qlimits. exact Lg.
   - intros x E. discriminate E.
   - intros x i dm _ E Hi. inversion E; subst. apply rel_width_nonneg. exact Hr.
@@ -406,12 +417,12 @@ Proof.
 Qed.
 
 Theorem total_default_Q (ninf pinf : Q) cfg specs (nl : bool) (means : list Q) (n : node Q) :
-  wf Q n -> is_pm Q n = true -> specs_cover Q specs n -> qlimits_good ninf pinf cfg specs ->
+  wf Q n -> cls_ok Q n -> is_pm Q n = true -> specs_cover Q specs n -> qlimits_good ninf pinf cfg specs ->
   qmodifiers_good cfg specs ->
   (prior_count Q n <= List.length means)%nat ->
   exists n' sp, qpass ninf pinf cfg specs (MMeans None None nl means) n = Ok (n', sp).
 Proof.
-  intros W P Sc Lg [Mg1 Mg2] L. unfold qpass. apply total_means_conditions; auto.
+  intros W C P Sc Lg [Mg1 Mg2] L. unfold qpass. apply total_means_conditions; auto.
   - apply qlimits. exact Lg.
   - intros x E. discriminate E.
   - intros x i dm _ E. discriminate E.
@@ -464,7 +475,9 @@ Proof. split; [simpl; auto|]. split; [reflexivity|]. eexists. vm_compute. reflex
 
 (* a constant held directly by a collection is kept *)
 Definition ex_coll : node Q := NColl [("k", NConst 2); ("p", NPrior 0%nat)].
-Definition qbin (o : binop) (a b : Q) : Q := match o with OAdd => a + b | OSub => a - b | OMul => a * b | ODiv => a / b end.
+Definition qbin (o : binop) (a b : Q) : Q := match o with OAdd => a + b | OSub => a - b | OMul => a * b | ODiv => a / b
+  | OFloorDiv => inject_Z (Qfloor (a / b)) | OMod => a - b * inject_Z (Qfloor (a / b)) end.
+Definition qun (o : unop) (a : Q) : Q := match o with UNeg => - a | UAbs => Qabs a end.
 Lemma collection_constant_example :
   wf Q ex_coll /\ exists sp, qpass (-1000) 1000 [] ex_specs (MMeans (Some 1) None false [1 # 2]) ex_coll = Ok (ex_coll, sp).
 Proof. split; [simpl; auto|]. eexists. vm_compute. reflexivity. Qed.
